@@ -3,6 +3,7 @@
      header) | asisub (unchanged header, shifts >= 64 undefined) | spec (the set model)
      ops  = i:a,b,..  insert      c:a,b,..  contains      z  size      it  full iteration
             p:a,..    all tuples starting with the given prefix (getBoundaries<k>), "p:" = all
+            q:n       partition(n): the chunks, each as {a,b a,b ...}
    stdout: the answers separated by " ; ": insert -> t/f (was new), contains -> t/f, size -> n,
      iteration/prefix -> tuples "a,b a,b ..." in the structure's iteration order;
      "undef" where the model has no defined result (shift >= 64 in asisub, failed assert). *)
@@ -19,11 +20,12 @@ let () = read_lines (fun l ->
     let parse w =
       if w = "z" then OSize else if w = "it" then OIter
       else if String.length w >= 2 && w.[1] = ':' then begin
-        let t = tuple_of (after2 w) in
+        let t = if w.[0] = 'q' then [] else tuple_of (after2 w) in
         match w.[0] with
         | 'i' -> if List.length t <> d then ok := false; OIns t
         | 'c' -> if List.length t <> d then ok := false; OMem t
         | 'p' -> if List.length t > d then ok := false; OPrefix t
+        | 'q' -> OPart (n_of_z (BZ.of_string (after2 w)))
         | _ -> ok := false; OSize end
       else (ok := false; OSize) in
     let h = List.map parse ops in
@@ -38,6 +40,7 @@ let () = read_lines (fun l ->
         | ABool true -> "t" | ABool false -> "f"
         | ANum n -> BZ.to_string (z_of_n n)
         | ATuples ts -> String.concat " " (List.map show_tuple ts)
+        | AChunks cs -> String.concat "" (List.map (fun ts -> "{" ^ String.concat " " (List.map show_tuple ts) ^ "}") cs)
         | AUndef -> "undef" in
       print_endline (String.concat " ; " (List.map show res)) end
   | _ -> print_endline "")
